@@ -11,6 +11,8 @@ Line-protocol driver for the dependency-check model (C04).
   check <id> <expr tokens…>  -> ok loop | ok clear | err fuel        (check_loops alone, nothing installed)
   restore ; <id> <0|1|-> <-|empty|bad|expr tokens…> ; …     (PUT /ports, one `;`-separated group per entry)
                              -> same replies as `set`
+  push | pop                 -> ok        (save the hub on a stack / restore the last saved hub: lets the harness try
+                                           every serial order of a batch of concurrently submitted assignments)
   dump                       -> ok <id>|<0/1>|<printed expression or ->  … separated by tabs, registration order
 
 Expression tokens: `v:<id>` ($id)  `s` ($)  `r:<id>` (@id)  `R` (@)  `l:<text>` (literal)  `c:<NAME>:<n>` followed by n args.
@@ -90,37 +92,46 @@ def fmtHub (h : Hub) : String :=
   "ok " ++ "\t".intercalate (h.ports.map fun p =>
     p.id ++ "|" ++ (if p.enabled then "1" else "0") ++ "|" ++ (match p.expr with | some e => e.print | none => "-"))
 
-def apply (h : Hub) (op : Op) : Hub × String :=
-  let (h', o) := step h op
-  (h', fmtOutcome o)
+structure DState where
+  hub : Hub := Hub.empty
+  stack : List Hub := []
 
-def dstep (h : Hub) : List String → Hub × String
-  | ["begin"] => (Hub.empty, "ok")
-  | ["add", id] => apply h (.addPort id)
-  | ["del", id] => apply h (.removePort id)
-  | ["clr", id] => apply h (.clear id)
-  | ["en", id, "0"] => apply h (.setEnabled id false)
-  | ["en", id, "1"] => apply h (.setEnabled id true)
-  | ["reload"] => apply h .reload
-  | ["dump"] => (h, fmtHub h)
-  | ["restore"] => apply h (.restore [])
+def apply (d : DState) (op : Op) : DState × String :=
+  let (h', o) := step d.hub op
+  ({ d with hub := h' }, fmtOutcome o)
+
+def dstep (d : DState) : List String → DState × String
+  | ["begin"] => ({}, "ok")
+  | ["push"] => ({ d with stack := d.hub :: d.stack }, "ok")
+  | ["pop"] =>
+    match d.stack with
+    | h :: rest => ({ hub := h, stack := rest }, "ok")
+    | [] => (d, "bad-op")
+  | ["add", id] => apply d (.addPort id)
+  | ["del", id] => apply d (.removePort id)
+  | ["clr", id] => apply d (.clear id)
+  | ["en", id, "0"] => apply d (.setEnabled id false)
+  | ["en", id, "1"] => apply d (.setEnabled id true)
+  | ["reload"] => apply d .reload
+  | ["dump"] => (d, fmtHub d.hub)
+  | ["restore"] => apply d (.restore [])
   | "restore" :: ";" :: toks =>
     match (splitGroups toks).mapM decodeEntry with
-    | some entries => apply h (.restore entries)
-    | none => (h, "bad-op")
-  | ["set", id, "bad"] => apply h (.assign id none)
+    | some entries => apply d (.restore entries)
+    | none => (d, "bad-op")
+  | ["set", id, "bad"] => apply d (.assign id none)
   | "set" :: id :: toks =>
     match decode toks with
-    | some e => apply h (.assign id (some e))
-    | none => (h, "bad-op")
+    | some e => apply d (.assign id (some e))
+    | none => (d, "bad-op")
   | "check" :: id :: toks =>
     match decode toks with
     | some e =>
-      match checkLoops h id e with
-      | .loop => (h, "ok loop")
-      | .ok => (h, "ok clear")
-      | .fuel => (h, "err fuel")
-    | none => (h, "bad-op")
-  | _ => (h, "bad-op")
+      match checkLoops d.hub id e with
+      | .loop => (d, "ok loop")
+      | .ok => (d, "ok clear")
+      | .fuel => (d, "err fuel")
+    | none => (d, "bad-op")
+  | _ => (d, "bad-op")
 
-def main : IO Unit := run dstep Hub.empty
+def main : IO Unit := run dstep {}
